@@ -1,4 +1,5 @@
 import Proofs.ScanLemmas
 import Proofs.C05
+import Proofs.NestLemmas
 import Proofs.ParseLemmas
 import Proofs.C06
